@@ -157,7 +157,7 @@ _LONG = {"clock": "float", "cap": 10 ** 6, "rep": {"start": (0.0).hex(), "warmup
 def enumerate_cases(tier):
     """two fixed scenarios in which the thread of the PREVIOUS run is still around when the next replication begins"""
     return [{"kind": "reinit-from-end-listener"}, {"kind": "init-while-slow-handler-after-stop"},
-            {"kind": "init-after-stop-inside-slow-handler"}]
+            {"kind": "init-after-stop-inside-slow-handler"}, {"kind": "cleanup-during-slow-handler"}]
 
 
 def _run_fixed(case, out):
@@ -193,6 +193,36 @@ def _run_fixed(case, out):
                 out.fail("second-initialize-raised-" + type(box["err"]).__name__, repr(box["err"]))
                 return
             h.settle(allow_limbo=True)
+        elif case["kind"] == "cleanup-during-slow-handler":
+            # cleanup() while an event handler is busy for a while (well within the time cleanup is prepared to
+            # wait), then the next replication: what the old handler still does belongs to the old replication
+            import threading
+            import time as _time
+            reached = threading.Event()
+            state = {"armed": True}
+
+            def on_exec(m, seq, node):
+                if state["armed"] and len(m.trace) - 1 == 5:
+                    state["armed"] = False
+                    reached.set()
+                    _time.sleep(0.3)
+            h.model.on_exec = on_exec
+            h.sim.start()
+            if not reached.wait(20.0):
+                raise Inconclusive("the run did not reach the sixth event")
+            try:
+                h.sim.cleanup()
+            except Exception as e:
+                out.fail("cleanup-raised-" + type(e).__name__, repr(e))
+                return
+            h.rec = Recorder()
+            h.initialize()
+            n_after = h.sim.eventlist().size()
+            _time.sleep(0.4)
+            if h.sim.eventlist().size() != n_after:
+                out.fail("after-initialize", {"pending events changed while nothing ran": [n_after, h.sim.eventlist().size()]})
+                return
+            h.run_piece(["start"])
         elif case["kind"] == "init-after-stop-inside-slow-handler":
             # the handler of an event calls stop() itself and goes on working for a while; a driver that sees the
             # simulator "not running" initialises the next replication: refused until the handler has returned
